@@ -59,6 +59,26 @@ Theorem C17_cache_cleanup_forgets_exactly_the_absent : forall world c n,
 Proof. exact clean_forgets_exactly_the_absent. Qed.
 Print Assumptions C17_cache_cleanup_forgets_exactly_the_absent.
 
+(* over histories WITH clean-ups: a version that a scan returned and that stays where it is,
+   unchanged, through any number of further scans - each with or without the cache clean-up,
+   over trees that change arbitrarily otherwise - is never returned again *)
+Theorem C17_returned_and_kept_never_requeued : forall cl cfg now world c d mid cl' cfg' now' world',
+  NoDup (map df_name world) -> In d (fst (scan_once_c cl cfg now world c)) ->
+  Forall (fun ev => In d (ev_world ev) /\ NoDup (map df_name (ev_world ev))) mid ->
+  In d world' ->
+  ~ In d (fst (scan_once_c cl' cfg' now' world' (scan_cache_c mid (snd (scan_once_c cl cfg now world c))))).
+Proof. exact returned_and_kept_not_requeued. Qed.
+Print Assumptions C17_returned_and_kept_never_requeued.
+
+(* the premises are met by a concrete history: returned once, then a clean-up scan, then not returned *)
+Example C17_kept_example :
+  let d := mkdfile [97] 5 (-100) false false false false in
+  let cfg := mkscfg false false false 0 in
+  fst (scan_once_c false cfg 0 [d] []) = [d] /\
+  fst (scan_once_c true cfg 0 [d] (scan_cache_c [(true, cfg, 0, [d])] (snd (scan_once_c false cfg 0 [d] [])))) = [].
+Proof. vm_compute. split; reflexivity. Qed.
+Print Assumptions C17_kept_example.
+
 (* ---- the queue cache (cache/local.go) is where "the version returned last" lives ---- *)
 From STS Require Import Model.Cache Proofs.CacheP.
 
